@@ -24,6 +24,9 @@ type SerCase struct {
 	MutIndex int        `json:"mut_index"`
 	MutVals  []*gen.Val `json:"mut_vals,omitempty"` // one candidate per value type, indexed by VT
 	MutEntry int        `json:"mut_entry"`          // which existing entry to clone when appending
+	// ReparseType: as a last step a message of this (other) MsgType, otherwise equal to the object's own
+	// serialization, is parsed INTO the object, which is then serialized once more ("" = no such step)
+	ReparseType string `json:"reparse_type,omitempty"`
 }
 
 func pickFix44(t *rapid.T) (gen.Template, bool) {
@@ -74,6 +77,11 @@ func genSerCase(t *rapid.T) *SerCase {
 		tags := gen.AllTags(&sc.Tpl)
 		for vt := gen.VT(0); vt <= gen.TRaw; vt++ {
 			sc.MutVals = append(sc.MutVals, gen.GenVal(t, vt, "mut"+vt.String(), tags))
+		}
+	}
+	if rapid.IntRange(0, 4).Draw(t, "reparse") == 0 {
+		if rt := rapid.SampledFrom([]string{"AE", "0", "D", "XYZ", "8", "AB"}).Draw(t, "reparseType"); len(rt) != len(sc.Tpl.MsgType) {
+			sc.ReparseType = rt
 		}
 	}
 	return sc
